@@ -7,7 +7,7 @@ from mc.core import Acc
 
 ID = "C15"
 RULE = ("E-INPUT: every ordered pair of distinct domain instants from a set of datetimes spanning 1900..2200 (epoch neighbours, "
-        "leap day, year ends, ms-resolution instants: 40 instants, thorough 408; + a seeded instant), plus domains of 1 ms .. 61 s at every instant, x 3 ranges (scale built domain-then-range, range-then-domain, by re-domaining a live scale, around a caller-owned inner LinearScale that is re-ranged after first use, or from caller-owned lists that the caller edits afterwards, before a later re-domain, in rotation; every other query instant is an instance of a datetime subclass) x query instants "
+        "leap day, year ends, ms-resolution instants: 120 instants, thorough 408; + a seeded instant), plus domains of 1 ms .. 61 s at every instant, x 3 ranges (scale built domain-then-range, range-then-domain, by re-domaining a live scale, around a caller-owned inner LinearScale that is re-ranged after first use, or from caller-owned lists that the caller edits afterwards, before a later re-domain, in rotation; every other query instant is an instance of a datetime subclass) x query instants "
         "(end points, 5 interior fractions, 4 exterior points) through the real TimeScale. Oracle: exact affine map on naive "
         "epoch milliseconds (rationals); invert within 1 ms inside the domain; agreement with LinearScale on the oracle's "
         "milliseconds. Non-trivial: query strictly inside or outside the domain.")
@@ -30,7 +30,7 @@ EXT = [F(-1), F(2), F(-1, 10), F(4)]
 
 
 def bounds(tier, seed):
-    return {"instants": len(BASE) + len(MORE) + (len(DENSE) if tier == "thorough" else 0) + 1, "ranges": RANGES,
+    return {"instants": len(BASE) + len(MORE) + (len(DENSE) if tier == "thorough" else 79) + 1, "ranges": RANGES,
             "queries_per_domain": 2 + len(FRACS) + len(EXT)}
 
 
@@ -127,11 +127,11 @@ def judge(t0, t1, rng, acc=None, order="domain-range"):
 
 
 def instants(tier, seed):
-    return BASE + MORE + (DENSE if tier == "thorough" else []) + [timegrid.seeded_start(seed)]
+    return BASE + MORE + (DENSE if tier == "thorough" else DENSE[:79:1]) + [timegrid.seeded_start(seed)]
 
 
 def plan(tier, seed):
-    return [{"tier": tier, "seed": seed, "mod": 16, "rem": r} for r in range(16)]
+    return [{"tier": tier, "seed": seed, "mod": 32, "rem": r} for r in range(32)]
 
 
 def run_shard(shard):
